@@ -30,10 +30,12 @@
 //! of the case:
 //! `empty-domain-view-panic` (`SparseSet::min/max` debug assertion reached with an empty-domain
 //! variable: `int(hi,lo)`, `intset([])`, reversed float bounds + float->int conversion),
-//! `table-row-arity-panic`, `lin-reif-length-unchecked`, `memory-limit-dummy-varid-panic` (the budget
+//! `lin-reif-length-unchecked`, `memory-limit-dummy-varid-panic` (the budget
 //! rejects the first variable, the dummy `VarId(0)` is dereferenced), `i32-overflow`,
 //! `float-split-no-progress` (step below ULP: the search descends for ever, limits unchecked),
-//! `huge-domain-allocation` (a sparse set of > 1.5 GB is allocated), `accepted-<invalid input>`.
+//! `huge-domain-allocation` (a sparse set of > 1.5 GB is allocated), `accepted-<invalid input>`,
+//! `alldiff-float-counted` (`mal.v alldiff` rows: the validation counts float variables among the
+//! required distinct values and rejects a satisfiable all-different).
 use crate::out::{guarded, Out};
 use crate::rng::Rng;
 use selen::prelude as sp;
@@ -2008,6 +2010,8 @@ pub enum V {
     TableArity { nv: usize, rowlen: usize },
     /// `alldiff([x, x])` on `int(0,3)`
     AllDiffDup { dup: bool },
+    /// one variable per entry (`None`: `float(0,10)`, `Some(d)`: `intset(d)`), `alldiff` over all
+    AllDiff { ds: Vec<Option<Vec<i32>>> },
 }
 
 #[derive(Clone, Copy, Debug, PartialEq)]
@@ -2055,6 +2059,16 @@ impl V {
             V::Mem { limit, lo, hi, post, first } => format!("mem {limit} {lo} {hi} {} {}", if *post { 1 } else { 0 }, if *first { 1 } else { 0 }),
             V::TableArity { nv, rowlen } => format!("tablearity {nv} {rowlen}"),
             V::AllDiffDup { dup } => format!("alldiffdup {}", if *dup { 1 } else { 0 }),
+            V::AllDiff { ds } => format!(
+                "alldiff {}",
+                ds.iter()
+                    .map(|d| match d {
+                        None => "f".to_string(),
+                        Some(v) => v.iter().map(|x| x.to_string()).collect::<Vec<_>>().join(" "),
+                    })
+                    .collect::<Vec<_>>()
+                    .join(" | ")
+            ),
         }
     }
     pub fn parse(ws: &[&str]) -> Option<V> {
@@ -2073,6 +2087,17 @@ impl V {
             "mem" => V::Mem { limit: u(1)? as u64, lo: i(2)?, hi: i(3)?, post: u(4)? == 1, first: u(5)? == 1 },
             "tablearity" => V::TableArity { nv: u(1)?, rowlen: u(2)? },
             "alldiffdup" => V::AllDiffDup { dup: u(1)? == 1 },
+            "alldiff" => {
+                let mut ds = vec![];
+                for g in ws[1..].split(|w| *w == "|") {
+                    if g.len() == 1 && g[0] == "f" {
+                        ds.push(None);
+                    } else {
+                        ds.push(Some(g.iter().map(|w| w.parse().ok()).collect::<Option<Vec<i32>>>()?));
+                    }
+                }
+                V::AllDiff { ds }
+            }
             _ => return None,
         })
     }
@@ -2252,6 +2277,18 @@ fn v_outcome(v: &V, call: VC) -> String {
                 Model::alldiff(&mut m, &[x, if *dup { x } else { y }]);
                 x
             }
+            V::AllDiff { ds } => {
+                let anchor = m.int(0, 1);
+                let ids: Vec<VarId> = ds
+                    .iter()
+                    .map(|d| match d {
+                        None => m.float(0.0, 10.0),
+                        Some(v) => m.intset(v.clone()),
+                    })
+                    .collect();
+                Model::alldiff(&mut m, &ids);
+                anchor
+            }
         };
         let pe = post_err.map(|e| format!("posterr {e} ")).unwrap_or_default();
         let one = |r: Result<Solution, SolverError>| match r {
@@ -2317,6 +2354,47 @@ pub fn do_v(out: &mut Out, v: &V, call: VC) {
             }
         }
     }
+    if let V::AllDiff { ds } = v {
+        // independent check: pairwise different values exist for the integer variables (floats are free)
+        fn go(doms: &[&Vec<i32>], used: &mut Vec<i32>) -> bool {
+            match doms.split_first() {
+                None => true,
+                Some((d, rest)) => {
+                    for x in d.iter() {
+                        if !used.contains(x) {
+                            used.push(*x);
+                            if go(rest, used) {
+                                return true;
+                            }
+                            used.pop();
+                        }
+                    }
+                    false
+                }
+            }
+        }
+        let ints: Vec<&Vec<i32>> = ds.iter().flatten().collect();
+        let sat = go(&ints, &mut vec![]);
+        let has_float = ds.iter().any(|d| d.is_none());
+        out.stat(if sat { "v.alldiff.sat" } else { "v.alldiff.unsat" });
+        if res.contains("ConflictingConstraints") {
+            out.stat("v.alldiff.rejected");
+        }
+        if sat && !accepted {
+            // a satisfiable all-different reported as an error / unsatisfiable
+            // the finding: the float variables are counted in the number of required distinct
+            // values although the scan skips their domains (iterating calls show the error as `empty`)
+            let mut vals: Vec<i32> = ints.iter().flat_map(|d| d.iter().copied()).collect();
+            vals.sort();
+            vals.dedup();
+            let counted = has_float && ds.len() > 1 && vals.len() < ds.len();
+            let tag = if counted && (res.contains("ConflictingConstraints") || res == "empty") { "alldiff-float-counted" } else { "-" };
+            out.fail(line, "C17", tag, format!("`{}` + {}: satisfiable all-different answered {res}", v.tokens(), call.name()));
+        }
+        if !sat && accepted {
+            out.fail(line, "C17", "-", format!("`{}` + {}: unsatisfiable all-different answered {res}", v.tokens(), call.name()));
+        }
+    }
     let _ = call.iterating();
 }
 
@@ -2341,6 +2419,38 @@ fn v_cases(r: &mut Rng) -> Vec<V> {
     vs.push(V::Mem { limit: *r.pick(&[1, 2]), lo: mlo, hi: (mlo as i64 + big - 1).min(1_000_000) as i32, post: r.chance(1, 2), first: r.chance(1, 2) });
     vs.push(V::TableArity { nv: r.below(3) as usize + 1, rowlen: r.below(4) as usize });
     vs.push(V::AllDiffDup { dup: r.chance(1, 2) });
+    {
+        // all-different validation: fixed duplicates, too few values, float variables, plain cases
+        let n = r.range(1, 4) as usize;
+        let with_float = r.chance(1, 3);
+        let ds: Vec<Option<Vec<i32>>> = (0..n)
+            .map(|_| {
+                if with_float && r.chance(1, 3) {
+                    None
+                } else if r.chance(1, 3) {
+                    Some(vec![r.range(0, 3) as i32])
+                } else {
+                    let mut v: Vec<i32> = (0..=3).filter(|_| r.chance(1, 2)).collect();
+                    if v.is_empty() {
+                        v.push(r.range(0, 3) as i32);
+                    }
+                    Some(v)
+                }
+            })
+            .collect();
+        vs.push(V::AllDiff { ds });
+        if r.chance(1, 8) {
+            // accepted by the validation (enough distinct values, no fixed duplicates) yet unsatisfiable:
+            // three variables over the same two values
+            let a = r.range(0, 2) as i32;
+            let mut ds = vec![Some(vec![a, a + 1]), Some(vec![a, a + 1]), Some(vec![a, a + 1]), Some(vec![a + 2, a + 3])];
+            if r.chance(1, 3) {
+                ds.push(None);
+                ds.push(Some(vec![a + 4, a + 5]));
+            }
+            vs.push(V::AllDiff { ds });
+        }
+    }
     vs
 }
 
